@@ -52,6 +52,55 @@ impl Guarded {
             core::slice::from_raw_parts(start, b.len())
         }
     }
+    /// placement for the `at <n>` cases: the operand is a SUB-SLICE of the region that starts at an
+    /// address congruent to `k` modulo 16 (as close to the inaccessible page as that allows, so at
+    /// most 15 readable bytes follow it); the 32 bytes before it and the bytes behind it hold `fill`
+    fn put_at<'a>(&'a self, b: &[u8], k: usize, fill: u8) -> &'a [u8] {
+        assert!(b.len() + 64 <= DATA_PAGES * PAGE && k < 16);
+        unsafe {
+            let end = self.base.add(DATA_PAGES * PAGE);
+            let raw = end as usize - b.len();
+            let pad = raw.wrapping_sub(k) % 16;
+            let start = end.sub(b.len() + pad);
+            debug_assert_eq!(start as usize % 16, k);
+            core::ptr::write_bytes(start.sub(32), fill, 32);
+            core::ptr::copy_nonoverlapping(b.as_ptr(), start, b.len());
+            core::ptr::write_bytes(start.add(b.len()), fill, pad);
+            core::slice::from_raw_parts(start, b.len())
+        }
+    }
+}
+
+/// where the operands of one case are placed: directly before the guard page (`None`, the default)
+/// or at chosen start alignments with chosen surrounding bytes (`at <n>`: n = ka + 16*kb + 256*fill)
+#[derive(Clone, Copy)]
+struct Place(Option<(usize, usize, u8)>);
+
+const FILLS: [u8; 4] = [0xAA, b'/', 0x00, b'a'];
+
+impl Place {
+    fn parse(s: &str) -> Option<Place> {
+        if s.is_empty() || s.len() > 4 || !s.bytes().all(|c| c.is_ascii_digit()) {
+            return None;
+        }
+        let n: usize = s.parse().ok()?;
+        if n >= 1024 {
+            return None;
+        }
+        Some(Place(Some((n & 15, (n >> 4) & 15, FILLS[(n >> 8) & 3]))))
+    }
+    fn a<'a>(&self, g: &'a Guarded, b: &[u8]) -> &'a [u8] {
+        match self.0 {
+            None => g.put(b),
+            Some((ka, _, f)) => g.put_at(b, ka, f),
+        }
+    }
+    fn b<'a>(&self, g: &'a Guarded, b: &[u8]) -> &'a [u8] {
+        match self.0 {
+            None => g.put(b),
+            Some((_, kb, f)) => g.put_at(b, kb, f),
+        }
+    }
 }
 
 fn unhex(s: &str) -> Option<Vec<u8>> {
@@ -135,7 +184,7 @@ fn opt_usize(o: Option<usize>) -> String {
     }
 }
 
-fn run_case(w: &[&str], n: u64, ga: &Guarded, gb: &Guarded) -> String {
+fn run_case(w: &[&str], n: u64, ga: &Guarded, gb: &Guarded, pl: Place) -> String {
     let a = match w.get(1).and_then(|s| unhex(s)) {
         Some(a) => a,
         None => return "bad-op".to_string(),
@@ -147,7 +196,7 @@ fn run_case(w: &[&str], n: u64, ga: &Guarded, gb: &Guarded) -> String {
         },
         None => None,
     };
-    let a = ga.put(&a);
+    let a = pl.a(ga, &a);
     let op = w[0];
     const UNARY: &[&str] = &[
         "ustr_bytes", "ustr_str", "ustring_bytes", "ustring_vec", "ustring_str", "ustring_string",
@@ -290,9 +339,9 @@ fn run_case(w: &[&str], n: u64, ga: &Guarded, gb: &Guarded) -> String {
             }
             None => "bad-op".to_string(),
         },
-        ("find_buf", Some(p)) => opt_usize(sa.find_buf(gb.put(&p))),
+        ("find_buf", Some(p)) => opt_usize(sa.find_buf(pl.b(gb, &p))),
         ("match_str", Some(p)) => {
-            let p = gb.put(&p);
+            let p = pl.b(gb, &p);
             // any valid UTF-8 is a legal &str operand (multi-byte characters included)
             match core::str::from_utf8(p) {
                 Ok(s) => format!("val {}", sa.match_up_to_str(s)),
@@ -316,7 +365,7 @@ fn run_case(w: &[&str], n: u64, ga: &Guarded, gb: &Guarded) -> String {
             }
         }
         (op2, Some(bb)) => {
-            let sb = match UnixStr::try_from_bytes(gb.put(&bb)) {
+            let sb = match UnixStr::try_from_bytes(pl.b(gb, &bb)) {
                 Ok(s) => s,
                 Err(_) => return "reject".to_string(),
             };
@@ -370,14 +419,24 @@ fn worker(lines: &[String], first: usize, fd: i32) {
             "ok".to_string()
         } else if w[0] == "dirnames" && w.len() == 2 {
             dirnames(w[1])
-        } else if w.len() > 3 {
-            "bad-op".to_string()
         } else {
-            let n = k as u64;
-            let (ga, gb) = (&ga, &gb);
-            match std::panic::catch_unwind(std::panic::AssertUnwindSafe(|| run_case(&w, n, ga, gb))) {
-                Ok(s) => s,
-                Err(_) => "panic".to_string(),
+            // `at <n> op a [b]`: the same case with the operands placed at chosen alignments
+            let (pl, w): (Option<Place>, &[&str]) = if w[0] == "at" && w.len() >= 4 {
+                (Place::parse(w[1]), &w[2..])
+            } else {
+                (Some(Place(None)), &w[..])
+            };
+            match pl {
+                None => "bad-op".to_string(),
+                Some(_) if w.len() > 3 => "bad-op".to_string(),
+                Some(pl) => {
+                    let n = k as u64;
+                    let (ga, gb) = (&ga, &gb);
+                    match std::panic::catch_unwind(std::panic::AssertUnwindSafe(|| run_case(w, n, ga, gb, pl))) {
+                        Ok(s) => s,
+                        Err(_) => "panic".to_string(),
+                    }
+                }
             }
         };
         let mut out = res.into_bytes();
